@@ -290,8 +290,30 @@ def opCorrBern (a : Args) : Except String String := do
       ("spec.tight1", fmtBool (random || marginalTightOK eps m p2 r1)),
       ("spec.cells", fmtBool (random || cellsOK eps m probs r0 r1))]))
 
+/-- op `tailinv`: inverse relations deep in the well-conditioned tails, on the implementation's own outputs.
+`ra`/`rt_ra` = tiny FNR targets and fnr(threshold_at_fnr(.)), `rb`/`rt_rb` the same for FPR (relative
+tolerance); `ta`/`rt_ta` = thresholds far below the positive mean and threshold_at_fnr(fnr(.)), `tb`/`rt_tb`
+thresholds far above the negative mean and threshold_at_fpr(fpr(.)). -/
+def opTailInv (a : Args) : Except String String := do
+  let eps ← getRat a "eps"
+  pure (out [
+    ("spec.inv_fnr", fmtBool (inverseRelOK eps (← getRats a "ra") (← getRats a "rt_ra"))),
+    ("spec.inv_fpr", fmtBool (inverseRelOK eps (← getRats a "rb") (← getRats a "rt_rb"))),
+    ("spec.inv_thr_fnr", fmtBool (inverseOK eps (← getRats a "ta") (← getRats a "rt_ta"))),
+    ("spec.inv_thr_fpr", fmtBool (inverseOK eps (← getRats a "tb") (← getRats a "rt_tb")))])
+
+/-- op `implied`: the implied sample size `support / rate` read exactly (`eps = 0`): `k` = observed class
+size, `s` = support, `r` = the rate as the decimal the caller wrote.  Used when that quotient is a whole
+number and the correctly rounded double quotient agrees with it, so no rounding question is left open. -/
+def opImplied (a : Args) : Except String String := do
+  let s ← getInt a "s"
+  let r ← getRat a "r"
+  let k ← getInt a "k"
+  if r ≤ 0 then throw "rate must be positive"
+  pure (out [("quot", fmtRat ((s : Rat) / r)), ("spec.implied", fmtBool (SA.Spec.C20.floorOK 0 ((s : Rat) / r) k))])
+
 def opsC20 : List (String × (Args → Except String String)) :=
   [("normal", opNormal), ("dsroc", opDsRoc), ("frommetrics", opFromMetrics), ("nsample", opNSample),
-   ("bernoulli", opBernoulli), ("corrbern", opCorrBern)]
+   ("bernoulli", opBernoulli), ("corrbern", opCorrBern), ("implied", opImplied), ("tailinv", opTailInv)]
 
 end SA.Ops
